@@ -70,7 +70,9 @@ func buildLinkSystem(which int) linking.LinkSystem {
 }
 
 func prototype(codec uint64) (cidlink.LinkPrototype, int) {
-	switch nd.Choose("hash", 4) {
+	switch nd.Choose("hash", 5) {
+	case 4: // identity with an explicit length (as a prototype taken from an existing identity link has): the identity "digest" is the whole block whatever the length says
+		return cidlink.LinkPrototype{Prefix: cid.Prefix{Version: 1, Codec: codec, MhType: mh.IDENTITY, MhLength: 1}}, 0
 	case 0:
 		return cidlink.LinkPrototype{Prefix: cid.Prefix{Version: 1, Codec: codec, MhType: mh.IDENTITY, MhLength: -1}}, 0
 	case 1:
